@@ -44,6 +44,9 @@ def run(tier):
     out.exhaustive = not out.extra.get('replay_sampled', False)
     out.assumptions = ['output matching inside a want is token equality here; the character-level relation is C05/C06',
                        'bodies are realised by the statement templates of harness/runlib.py (rotated by case hash + VERIF_SEED)']
+    from . import tracelib
+    tracelib.traced_replay(out, 'C02_Parts<=2', 'C02_Parts', 2)
+    tracelib.suite_phase(out, tier)
     return out.finish()
 
 
